@@ -36,6 +36,9 @@ type seeker struct {
 	r     *bytes.Reader
 	chunk int
 	pos   int64
+	// eofWithData: the read that delivers the last bytes also returns io.EOF (as io.Reader allows and files on
+	// some file systems, HTTP bodies and decompressors do)
+	eofWithData bool
 }
 
 func newSeeker(b []byte, chunk int) *seeker { return &seeker{r: bytes.NewReader(b), chunk: chunk} }
@@ -46,6 +49,9 @@ func (s *seeker) Read(p []byte) (int, error) {
 	}
 	n, err := s.r.Read(p)
 	s.pos += int64(n)
+	if s.eofWithData && err == nil && s.r.Len() == 0 {
+		err = io.EOF
+	}
 	return n, err
 }
 
@@ -158,6 +164,18 @@ func sniffAll(t *engine.T, in []byte) (formats.Format, error, *engine.Violation)
 		}
 		if f != f0 || (e == nil) != (e0 == nil) {
 			return f0, e0, engine.Violate("chunk-dependence", "", "reads in chunks of %d give (%q,%v), whole reads give (%q,%v)", chunk, f, e, f0, e0)
+		}
+	}
+	for _, chunk := range []int{7, 4096, 1 << 20} {
+		s := newSeeker(in, chunk)
+		s.eofWithData = true
+		f, e := rw.Sniff(s)
+		t.Transitions(1)
+		if s.pos != 0 {
+			return f0, e0, engine.Violate("rewind", "eof-with-data", "after SniffReader on a stream that returns its last bytes together with io.EOF (chunk %d) the stream is at offset %d, not 0", chunk, s.pos)
+		}
+		if f != f0 || (e == nil) != (e0 == nil) {
+			return f0, e0, engine.Violate("chunk-dependence", "eof-with-data", "a stream that returns its last bytes together with io.EOF (chunks of %d) gives (%q,%v), a plain reader gives (%q,%v)", chunk, f, e, f0, e0)
 		}
 	}
 	for pre := 1; pre <= 8 && pre <= len(in); pre++ {
